@@ -41,16 +41,19 @@ where
     }
     fn on_close(&self, id: span::Id, ctx: Context<'_, C>) {
         let readable = ctx.span(&id).is_some();
-        // what this layer drops here: taken out under the lock, dropped outside it (the drop may close a span, which comes back here)
-        let mine: Vec<Span> = {
+        // what this layer drops here, one handle after the other (each taken out under the lock and dropped outside it: the drop
+        // may close a span, which comes back here — and may find that a LATER handle of this list is the one it has to drop)
+        let drops: Vec<usize> = {
             let mut sh = self.sh.lock().unwrap();
             let k = sh.idmap.get(&id.into_u64()).cloned();
             let line = format!("x{}.{}{}", self.layer, k.map(|k| k.to_string()).unwrap_or("?".into()), if readable { "r" } else { "u" });
             sh.log.push(line);
-            let drops: Vec<usize> = sh.wills.iter().filter(|w| w.0 == self.layer && Some(w.1) == k).map(|w| w.2).collect();
-            drops.into_iter().filter_map(|j| sh.handles.remove(&j)).collect()
+            sh.wills.iter().filter(|w| w.0 == self.layer && Some(w.1) == k).map(|w| w.2).collect()
         };
-        for s in mine { drop(s); }
+        for j in drops {
+            let h = self.sh.lock().unwrap().handles.remove(&j);
+            drop(h);
+        }
     }
 }
 
